@@ -524,7 +524,27 @@ func (u *Unit) evalSelector(x *ast.SelectorExpr, env *Env) Value {
 		unsup("method value %s", u.exprText(x))
 	}
 	base := u.eval(x.X, env)
+	u.lockGuardCheck(env, x, false)
 	return u.fieldPath(base, sel.Index(), env, x)
+}
+
+// "opt lockguard=<field>:<lock>": every access to X.<field> must happen while X.<lock> is held (exclusively for writes)
+func (u *Unit) lockGuardCheck(env *Env, x *ast.SelectorExpr, write bool) {
+	if u.Block == nil || u.Block.Opts["lockguard"] == "" || u.inSpec {
+		return
+	}
+	parts := strings.SplitN(u.Block.Opts["lockguard"], ":", 2)
+	if len(parts) != 2 || x.Sel.Name != parts[0] {
+		return
+	}
+	key := u.exprText(x.X) + "." + parts[1]
+	mode := env.held[key]
+	ok := mode == "W" || (!write && mode == "R")
+	what := "read"
+	if write {
+		what = "write"
+	}
+	u.assert(env, fmt.Sprintf("perm/guarded-%s/%s", what, u.exprText(x)), "perm", x.Pos(), what+" of "+u.exprText(x)+" requires "+key+" to be held", boolTerm(ok))
 }
 
 // follow a field path (embedded fields included)
@@ -561,6 +581,7 @@ func (u *Unit) assignField(l *ast.SelectorExpr, sel *types.Selection, v Value, e
 		cur = u.fieldPath(cur, []int{idx}, env, l)
 	}
 	last := path[len(path)-1]
+	u.lockGuardCheck(env, l, true)
 	t := types.Unalias(cur.Ty)
 	if n, ok := t.(*types.Named); ok && n.Obj().Pkg() != nil && isOpaquePkg(n.Obj().Pkg().Path()) {
 		u.note("assignment to " + u.exprText(l) + " (field of an opaque library value) is not modelled")
@@ -611,7 +632,14 @@ func (u *Unit) evalSliceExpr(x *ast.SliceExpr, env *Env) Value {
 	goal := And(le(IntLit(0), lo), le(lo, hi), le(hi, mx), le(mx, sCap(s)))
 	u.safety(env, "bounds", x.Pos(), u.exprText(x), goal)
 	r := mkSlice(sBase(s), add(sOff(s), lo), sub(hi, lo), sub(mx, lo))
-	return Value{u.define(env, "sl", r), u.Info.TypeOf(x)}
+	slv := u.define(env, "sl", r)
+	if x.Low != nil && !strings.Contains(s.S, "?") && !strings.Contains(lo.S, "?") {
+		// positions of the sub-slice are positions of the sliced value (an instance of the definition of idx, stated so that
+		// quantified facts about s[...] are triggered by reads through the sub-slice)
+		j := u.D.Bound("j", SInt)
+		env.assume(Forall([]Term{j}, Same(u.idx(slv, j), u.idx(s, add(lo, j))), []Term{u.idx(slv, j)}))
+	}
+	return Value{slv, u.Info.TypeOf(x)}
 }
 
 func (u *Unit) boundsCheck(env *Env, s Term, idx Term, at ast.Node) {
